@@ -17,6 +17,9 @@ import sys
 import time
 
 ROOT = os.path.dirname(os.path.dirname(os.path.abspath(__file__)))
+# evidence/ and replays/ go here; runs against a scratch tree (tools/try_seeded.py) redirect them so that
+# the evidence of the real tree is not overwritten
+OUT = os.environ.get('VERIF_OUT_DIR') or ROOT
 LEAN_DIR = os.path.join(ROOT, 'lean')
 REPO = os.environ.get('BARDOLPH_REPO', '/repo')
 PY = sys.executable
@@ -120,8 +123,8 @@ class Check:
         self.proof = {'obligations': 0, 'discharged': 0, 'theorems': [], 'build_ok': None}
         self.notes = []
         self.design_ref = design_ref
-        os.makedirs(os.path.join(ROOT, 'evidence'), exist_ok=True)
-        os.makedirs(os.path.join(ROOT, 'replays'), exist_ok=True)
+        os.makedirs(os.path.join(OUT, 'evidence'), exist_ok=True)
+        os.makedirs(os.path.join(OUT, 'replays'), exist_ok=True)
 
     @property
     def thorough(self):
@@ -350,14 +353,14 @@ class Check:
         lines = []
         exit_code = 0
         import glob
-        for stale in glob.glob(os.path.join(ROOT, 'replays', '{}_{}_*.json'.format(self.pid, self.tier))):
+        for stale in glob.glob(os.path.join(OUT, 'replays', '{}_{}_*.json'.format(self.pid, self.tier))):
             os.remove(stale)
         for hit, v in self.known_hits:
             lines.append('KNOWN-FINDING: property={} {} [{}]'.format(
                 self.pid, hit.get('what', v['what']), v['signature']))
         for i, v in enumerate(new):
             path = os.path.join('replays', '{}_{}_{}.json'.format(self.pid, self.tier, i))
-            with open(os.path.join(ROOT, path), 'w') as f:
+            with open(os.path.join(OUT, path), 'w') as f:
                 json.dump({'property': self.pid, 'signature': v['signature'], 'what': v['what'],
                            'replay': v['replay'], 'seed': self.seed, 'tier': self.tier,
                            'broken': self.broken}, f, indent=1, default=str)
@@ -366,7 +369,7 @@ class Check:
         if self.broken and not new:
             # a proof obligation or the tie no longer checks and the search found no failing input
             path = os.path.join('replays', '{}_{}_unproved.json'.format(self.pid, self.tier))
-            with open(os.path.join(ROOT, path), 'w') as f:
+            with open(os.path.join(OUT, path), 'w') as f:
                 json.dump({'property': self.pid, 'no_longer_checks': self.broken,
                            'first_disagreements': self.coverage.get('first_disagreements', []),
                            'build_log': self.proof.get('build_log', ''),
@@ -400,7 +403,7 @@ class Check:
             'wall_s': round(time.time() - self.t0, 2),
             'violations': len(new) + (1 if (self.broken and not new) else 0),
         }
-        with open(os.path.join(ROOT, 'evidence', self.pid + '.json'), 'w') as f:
+        with open(os.path.join(OUT, 'evidence', self.pid + '.json'), 'w') as f:
             json.dump(evidence, f, indent=1, default=str)
         for line in lines:
             print(line)
